@@ -122,6 +122,23 @@ impl LengthPrefixedFramer {
   }
 }
 
+impl LengthPrefixedFramer {
+  /// Largest plaintext whose ciphertext (plaintext + 16-byte tag) still fits the u16 record length.
+  const MAX_RECORD_PLAINTEXT: usize = u16::MAX as usize - 16;
+
+  /// Seals `plaintext` as one or more length-prefixed records. The reader appends the plaintext of
+  /// consecutive records to `decrypted_buffer`, so a frame may span records.
+  fn seal_records(&mut self, plaintext: &[u8]) -> Result<Bytes, ZmqError> {
+    let mut out = BytesMut::with_capacity(plaintext.len() + 18 * (plaintext.len() / Self::MAX_RECORD_PLAINTEXT + 1));
+    for chunk in plaintext.chunks(Self::MAX_RECORD_PLAINTEXT) {
+      let ciphertext = self.cipher.encrypt(chunk)?;
+      out.put_u16(ciphertext.len() as u16);
+      out.extend_from_slice(&ciphertext);
+    }
+    Ok(out.freeze())
+  }
+}
+
 impl ISecureFramer for LengthPrefixedFramer {
   fn try_read_msg(&mut self, network_buffer: &mut BytesMut) -> Result<Option<Msg>, ZmqError> {
     loop {
@@ -148,19 +165,11 @@ impl ISecureFramer for LengthPrefixedFramer {
 
   fn write_msg_multipart(&mut self, msgs: FrameBatch) -> Result<Bytes, ZmqError> {
     let plaintext = self.framer.frame_contiguous(&[msgs])?;
-    let ciphertext = self.cipher.encrypt(&plaintext)?;
-    let mut out = BytesMut::with_capacity(2 + ciphertext.len());
-    out.put_u16(ciphertext.len() as u16);
-    out.extend_from_slice(&ciphertext);
-    Ok(out.freeze())
+    self.seal_records(&plaintext)
   }
 
   fn write_msg_batch(&mut self, batch: &[FrameBatch]) -> Result<Bytes, ZmqError> {
     let plaintext = self.framer.frame_contiguous(batch)?;
-    let ciphertext = self.cipher.encrypt(&plaintext)?;
-    let mut out = BytesMut::with_capacity(2 + ciphertext.len());
-    out.put_u16(ciphertext.len() as u16);
-    out.extend_from_slice(&ciphertext);
-    Ok(out.freeze())
+    self.seal_records(&plaintext)
   }
 }
